@@ -278,7 +278,7 @@ def gen_oto(rng, tier):
             if not _new_rejects(p) and (not uniq or _creates(p)):     # a constructor that raises creates nothing
                 ninst += 1
         elif r < 0.13 and ninst < 3:
-            ops.append(["copy", rng.choice(["copy", "ctor", "copycopy"]), i, s])
+            ops.append(["copy", rng.choice(["copy", "ctor", "copycopy", "deepcopy"]), i, s])
             ninst += 1
         elif r < 0.16 and ninst < 3:
             keys = [U(rng.choice(toks)) for _ in range(rng.randint(0, 4))]
@@ -290,6 +290,8 @@ def gen_oto(rng, tier):
                 ninst += 1
         elif r < 0.24 and ninst >= 1:
             ops.append(["updfrom", rng.random() < 0.4, i, s, rng.randrange(ninst), int(rng.random() < 0.5)])
+        elif r < 0.28:
+            ops.append(["eq", i, s, rng.randrange(ninst), int(rng.random() < 0.5)])
         else:
             name = rng.choice(["set", "set", "set", "set", "del", "pop", "popd", "popitem", "clear", "setdefault",
                                "setdefault", "update", "update", "update", "ior", "get"])
@@ -519,10 +521,20 @@ def run_oto(case):
                     c = x.copy()
                 elif op[1] == "ctor":
                     c = OneToOne(x)
+                elif op[1] == "deepcopy":
+                    c = _copy.deepcopy(x)
                 else:
                     c = _copy.copy(x)
                 assert type(c) is OneToOne
                 insts.append(c)
+            elif op[0] == "eq":
+                x = insts[op[1]].inv if op[2] else insts[op[1]]
+                y = insts[op[3]].inv if op[4] else insts[op[3]]
+                r = (x == y)
+                # the inherited dict.__eq__ must say the same against plain-dict copies, either way round
+                assert isinstance(r, bool) and (x != y) == (not r) and (y == x) == r
+                assert (x == dict(y)) == r and (dict(x) == y) == r
+                res = _res_ok(["bool", r])
             elif op[0] == "updfrom":
                 x = insts[op[2]].inv if op[3] else insts[op[2]]
                 y = insts[op[4]].inv if op[5] else insts[op[4]]
@@ -892,7 +904,9 @@ def c_oto_hop(op):
     if op[0] == "new":
         return "HNew %s %s" % (cb(op[1]), ckvs(op[3]))
     if op[0] == "copy":
-        return "HCopy %s %s" % (cn(op[2]), cb(bool(op[3])))
+        return "%s %s %s" % ("HDeepcopy" if op[1] == "deepcopy" else "HCopy", cn(op[2]), cb(bool(op[3])))
+    if op[0] == "eq":
+        return "HEq %s %s %s %s" % (cn(op[1]), cb(bool(op[2])), cn(op[3]), cb(bool(op[4])))
     if op[0] == "fromkeys":
         return "HFromkeys %s %s" % (cl(cn(k) for k in op[1]), cn(op[2]))
     if op[0] == "updfrom":
